@@ -471,6 +471,17 @@ def vc_in(a, b):
         return a in SymSet(b)
     if type(b) is str and isinstance(a, Sym):
         raise Unsupported("%s in str" % type(a).__name__)
+    if isinstance(a, SInt) and isinstance(b, (set, frozenset, dict)):
+        # membership of a symbolic integer in a concrete hashed collection: a disjunction over
+        # the integer members (bools count as ints in Python; other member types never equal an int)
+        ks = sorted(k for k in b if isinstance(k, int))
+        if any(isinstance(k, Sym) for k in b):
+            raise Unsupported("symbolic members in a set/dict")
+        if not ks:
+            return False
+        from .core import Or as _Or
+
+        return _Or(*[a == int(k) for k in ks])
     return a in b
 
 
